@@ -141,10 +141,7 @@ func (p *Program) normaliseOnce(known map[string]bool, round int) (map[string][]
 		inlined[callee]++
 		notes = append(notes, fmt.Sprintf("%s inlined into %s at %s", cand.fs.Name, cs.In.Root().Name, p.PosStr(cs.Call.Pos())))
 	}
-	if len(edits) == 0 {
-		return nil, nil
-	}
-	// a helper all of whose uses were inlined disappears (blank lines keep the
+	// a helper without any use left disappears (blank lines keep the
 	// line numbers): it is not a function of the program any more
 	refs := map[types.Object]int{}
 	for _, pkg := range p.Mod {
@@ -155,7 +152,7 @@ func (p *Program) normaliseOnce(known map[string]bool, round int) (map[string][]
 		}
 	}
 	for obj, cand := range cands {
-		if inlined[obj] == 0 || refs[obj] != inlined[obj] {
+		if refs[obj] != 0 {
 			continue
 		}
 		fd := cand.fs.Decl
@@ -176,6 +173,9 @@ func (p *Program) normaliseOnce(known map[string]bool, round int) (map[string][]
 		}
 		edits[file.Name()] = append(edits[file.Name()], textEdit{start, end, strings.Repeat("\n", strings.Count(string(b[start:end]), "\n"))})
 		notes = append(notes, cand.fs.Name+" removed (every use inlined)")
+	}
+	if len(edits) == 0 {
+		return nil, nil
 	}
 	out := map[string][]byte{}
 	for fname, es := range edits {
@@ -226,6 +226,16 @@ func (p *Program) inlinable(fs *FuncSrc) *inlineCand {
 			if !top {
 				ok = false
 			}
+			// every return must come after the defer, so that each of them runs it
+			ast.Inspect(fd.Body, func(m ast.Node) bool {
+				if _, isLit := m.(*ast.FuncLit); isLit {
+					return false
+				}
+				if r, isR := m.(*ast.ReturnStmt); isR && r.Pos() < x.Pos() {
+					ok = false
+				}
+				return true
+			})
 			for _, a := range x.Call.Args {
 				if !accessPath(a) {
 					ok = false // the argument would be evaluated at another time
@@ -459,7 +469,7 @@ func (p *Program) inlineAt(cs *CallSite, cand *inlineCand, tag string, read func
 			continue
 		}
 		t := b.text
-		if _, isId := unparen(b.expr).(*ast.Ident); !isId {
+		if id, isId := unparen(b.expr).(*ast.Ident); !isId || id.Name != t {
 			t = "(" + t + ")"
 		}
 		subst[b.obj] = t
@@ -837,6 +847,10 @@ func (p *Program) inlineAt(cs *CallSite, cand *inlineCand, tag string, read func
 		d := cand.defers[i]
 		deferred = append(deferred, bodyEdits(d.Call.Pos(), d.Call.End(), nil))
 	}
+	dtext := ""
+	for _, d := range deferred {
+		dtext += strings.ReplaceAll(d, "\n", " ") + "; "
+	}
 	extra := func(n ast.Node) (textEdit, bool, bool) {
 		switch x := n.(type) {
 		case *ast.FuncLit:
@@ -912,6 +926,7 @@ func (p *Program) inlineAt(cs *CallSite, cand *inlineCand, tag string, read func
 			} else if nres > 0 && !named {
 				return textEdit{}, false, true
 			}
+			sb.WriteString(dtext)
 			if needLoop {
 				sb.WriteString("break " + label + " }")
 			} else {
@@ -922,6 +937,17 @@ func (p *Program) inlineAt(cs *CallSite, cand *inlineCand, tag string, read func
 		return textEdit{}, false, true
 	}
 	body := bodyEdits(fd.Body.Lbrace+1, fd.Body.Rbrace, extra)
+	endsWithReturn := false
+	if n := len(fd.Body.List); n > 0 {
+		_, endsWithReturn = fd.Body.List[n-1].(*ast.ReturnStmt)
+	}
+	if dtext != "" && !endsWithReturn {
+		body += "; " + dtext
+	}
+	if contKind != "" && dtext != "" {
+		return nil, nil, false // the caller's branch would run before the deferred calls
+	}
+	deferred = nil
 	dline := p.Fset.PositionFor(fd.Body.Lbrace, false).Line
 	sline := p.Fset.PositionFor(stmt.Pos(), false).Line
 	eline := p.Fset.PositionFor(stmt.End(), false).Line
